@@ -216,6 +216,10 @@ func (s *wlShared) check(m *c14Mon, p *spg.Password) {
 			return
 		}
 	}
+	if cl, msg := capsOK(string(s.rec.Capitalize), atoms, s.kept, s.titled); cl != "" {
+		m.violate("invalid-password-under-concurrency", fmt.Sprintf("%s: %s", s.name, msg))
+		return
+	}
 	for _, v := range ts.Separators() {
 		if !s.sepOK(v) {
 			m.violate("invalid-password-under-concurrency", fmt.Sprintf("%s: separator %q is not one the separator setting can produce", s.name, v))
